@@ -168,7 +168,7 @@ def check(case: Dict[str, Any]) -> Dict[str, Any]:
                                 {'last_tc': rel(last['t_ms']), 'draw': draw[0]['v'], 'handled': rel(a['t_ms'])}, tag='tc-hold')
         questions = [x for p in packets for x in p['questions']]
         probe = any(p['probe'] for p in packets)
-        known = [] if probe else [k for p in packets if not p['probe'] for k in p['known']]
+        known = [k for p in packets if not p['probe'] for k in p['known']]   # a probe packet's own answer section is not read
         exp, dont_care, allowed, _ = run.model.answers([(n, t) for n, t, _ in questions], known)
         first_qs = packets[0]['questions']
         immediate_shape = len(first_qs) == 1 and first_qs[0][1] in IMMEDIATE_TYPES
